@@ -151,13 +151,19 @@ func runCase(t *testing.T, tr *hx.Trace, id int, r *rand.Rand, script []string) 
 			if conv {
 				c = 1
 			}
-			header = fmt.Sprintf("case %d n=%d retention=%d conv=%d fix=%s", id, n, ret, c, silx.FixFlag())
+			// one case in four has a MaxSilences limit small enough to bind: it is admission control of the local
+			// write API (Set answers "limit", as modelled), replicated state is merged whatever its size
+			maxsil := 0
+			if r.IntN(4) == 0 {
+				maxsil = 1 + r.IntN(3)
+			}
+			header = fmt.Sprintf("case %d n=%d retention=%d conv=%d fix=%s maxsil=%d", id, n, ret, c, silx.FixFlag(), maxsil)
 		}
 		h := silx.ParseHeader(header)
 		n := int(silx.HInt(h, "n", 2))
 		retention := silx.HInt(h, "retention", 0)
 		conv := h["conv"] == "1"
-		w := silx.NewWorld(n, time.Duration(retention), 0, 0)
+		w := silx.NewWorld(n, time.Duration(retention), int(silx.HInt(h, "maxsil", 0)), 0)
 		tr.Linef("%s", header)
 		converge := func() {
 			d := make([]string, n)
